@@ -14,6 +14,7 @@
 #include <atomic>
 #include <type_traits>
 #include <climits>
+#include <deque>
 
 namespace {
 
@@ -21,7 +22,7 @@ using sim::Workload;
 using sim::Result;
 using sim::Rng;
 
-enum { C_ENTRY = 0, C_MWMA, C_MWMSA, C_THREADS, C_OVERSAMPLE, C_SIZEMODE, C_SIZEVAL, C_FORCE, C_MINK, C_MINN, C_ELEM };
+enum { C_ENTRY = 0, C_MWMA, C_MWMSA, C_THREADS, C_OVERSAMPLE, C_SIZEMODE, C_SIZEVAL, C_FORCE, C_MINK, C_MINN, C_ELEM, C_SEQKIND };
 enum { EV_ASSIGN = 1 };
 
 struct E;
@@ -82,7 +83,8 @@ void generate(Rng& r, Workload& w, int tier) {
     int64_t threads = r.chance(1, 12) ? 8 : r.range(0, 7);   // 0..7 -> 1..8 threads, 8 -> 32
     int64_t sizemode = r.below(10) < 5 ? 0 : (r.chance(1, 5) ? 1 : 2);
     w.cfg = {int64_t(r.below(6)), int64_t(r.below(4)), int64_t(r.below(2)), threads, r.range(0, 3), sizemode,
-             int64_t(r.below(1000)), r.chance(4, 5) ? 1 : 0, r.range(0, 4), r.range(0, 20), r.chance(1, 3) ? 1 : 0};
+             int64_t(r.below(1000)), r.chance(4, 5) ? 1 : 0, r.range(0, 4), r.range(0, 20), r.chance(1, 3) ? 1 : 0,
+             r.chance(1, 4) ? 1 : 0};   // last: the sequences live in std::deque (not contiguous) instead of std::vector
     // mostly a handful of sequences; one run in five has many (17..48) short ones:
     // sample sorting inside the splitters behaves differently beyond 16 sequences
     const bool many = r.chance(1, 5);
@@ -102,7 +104,14 @@ void generate(Rng& r, Workload& w, int tier) {
     }
 }
 
-template <class E, bool Hooks>
+template <class Seq, class X> void seq_add(Seq& v, bool first, X&& x) { (void)first; v.emplace_back(std::forward<X>(x)); }
+// a deque sequence starts with an emplace_front: its first element sits at the end of one block, the rest in the
+// next one, so that every sequence of two or more elements crosses a block boundary
+template <class T, class X> void seq_add(std::deque<T>& v, bool first, X&& x) {
+    if (first) v.emplace_front(std::forward<X>(x)); else v.emplace_back(std::forward<X>(x));
+}
+
+template <class E, bool Hooks, class Seq>
 void run(const Workload& w, Result& res) {
     const int entry = int(sim::modn(sim::cfg_at(w, C_ENTRY), 6));
     const auto mwma = tlx::MultiwayMergeAlgorithm(sim::modn(sim::cfg_at(w, C_MWMA), 4));
@@ -116,14 +125,14 @@ void run(const Workload& w, Result& res) {
 
     g_e_bad_assign = 0; g_e_bad_source = 0; g_e_bad_destroy = 0;
     const int64_t e_live0 = g_e_live.load();
-    std::vector<std::vector<E> > seqs;
+    std::vector<Seq> seqs;
     size_t total = 0;
     for (size_t s = 0; s < w.ops.size() && s < 64; ++s) {
         std::vector<int64_t> keys = w.ops[s];
         for (auto& k : keys) k = sim::modn(k, 1000);
         std::sort(keys.begin(), keys.end());
-        std::vector<E> v;
-        for (size_t i = 0; i < keys.size(); ++i) v.emplace_back(int(keys[i]), int(s), int(i));
+        Seq v;
+        for (size_t i = 0; i < keys.size(); ++i) seq_add(v, i == 0, E(int(keys[i]), int(s), int(i)));
         total += v.size();
         if (sentinels) v.emplace_back(INT_MAX, int(s), -1);   // a real sentinel element behind the end
         v.shrink_to_fit();
@@ -137,7 +146,7 @@ void run(const Workload& w, Result& res) {
     tlx::parallel_multiway_merge_minimal_k = size_t(sim::modn(sim::cfg_at(w, C_MINK), 5));
     tlx::parallel_multiway_merge_minimal_n = size_t(sim::modn(sim::cfg_at(w, C_MINN), 21));
 
-    using It = typename std::vector<E>::iterator;
+    using It = typename Seq::iterator;
     std::vector<std::pair<It, It> > pairs;
     for (auto& v : seqs) pairs.emplace_back(v.begin(), v.end() - (sentinels ? 1 : 0));
     const size_t guard = 4;
@@ -152,7 +161,7 @@ void run(const Workload& w, Result& res) {
     std::vector<size_t> ref_adv(seqs.size(), 0);
     for (size_t i = 0; i < size; ++i) ref_adv[size_t(ref[i].seq)]++;
 
-    It ret;
+    typename std::vector<E>::iterator ret;   // (the output stays a vector)
     const std::ptrdiff_t dsize = std::ptrdiff_t(size);
     switch (entry) {
     case 0: ret = tlx::parallel_multiway_merge_base<false>(pairs.begin(), pairs.end(), out.begin(), dsize, ByKey(), mwma, mwmsa, threads); break;
@@ -257,7 +266,10 @@ void run(const Workload& w, Result& res) {
 }
 
 void execute(const Workload& w, Result& res) {
-    if (sim::modn(sim::cfg_at(w, C_ELEM), 2) == 1) run<P, false>(w, res); else run<E, true>(w, res);
+    const bool deq = sim::modn(sim::cfg_at(w, C_SEQKIND), 2) == 1;
+    if (deq) res.probe("sequences_in_deques");
+    if (sim::modn(sim::cfg_at(w, C_ELEM), 2) == 1) { if (deq) run<P, false, std::deque<P> >(w, res); else run<P, false, std::vector<P> >(w, res); }
+    else { if (deq) run<E, true, std::deque<E> >(w, res); else run<E, true, std::vector<E> >(w, res); }
 }
 
 const sim::HarnessDef def = {"C07", true, 60, generate, execute, nullptr};
